@@ -155,3 +155,15 @@ func init() {
 	})
 	reg("(*regexp.Regexp).String", func(e *Engine, fr *frame, args []V) V { return vStr(hostRegexp(e, args[0]).String()) })
 }
+
+func init() {
+	// gopkg BinaryProtocol.Skip walks raw pointers; it is replaced by the safe-Go model
+	// zzgen/internal/zzskip.Skip (same contract), interpreted like any other code.
+	reg("(github.com/cloudwego/gopkg/protocol/thrift.BinaryProtocol).Skip", func(e *Engine, fr *frame, args []V) V {
+		fn := e.lookupFunc("zzgen/internal/zzskip.Skip")
+		if fn == nil {
+			e.unsupported("gopkg BinaryProtocol.Skip: model package zzgen/internal/zzskip not loaded")
+		}
+		return e.callSSA(fr.caller, fr.callSite, fn, []V{args[1], args[2]}, nil)
+	})
+}
